@@ -107,7 +107,12 @@ Eval(t, I, Q) ==
       [] op = "forall" -> \A J \in BinderAssignments(t.bv, Q) : Eval(t.a[1], Override(I, J), Q)
       [] op = "exists" -> \E J \in BinderAssignments(t.bv, Q) : Eval(t.a[1], Override(I, J), Q)
       [] op = "function" ->
-            LET f == I[t.n] IN MapGet(f.m, f.d, args)
+            LET f == I[t.n]
+            IN  IF "body" \in DOMAIN f
+                THEN \* the symbol is interpreted by a definition [params, body]
+                     Eval(f.body, [nm \in {f.params[j].n : j \in 1..Len(f.params)} |->
+                                      args[CHOOSE j \in 1..Len(f.params) : f.params[j].n = nm]], Q)
+                ELSE MapGet(f.m, f.d, args)
       \* ---- arithmetic
       [] op = "plus" -> IF TyF(t.a[1]) = TInt THEN SumInts(args) ELSE SumQ(args)
       [] op = "times" -> IF TyF(t.a[1]) = TInt THEN ProdInts(args) ELSE ProdQ(args)
